@@ -25,6 +25,9 @@ TOLERANCES = {"fingerprints": "exact (NMF: 1e-9)"}
 FRAME_OK = ("KMeansL1L2",)          # classes whose fit takes a DataFrame through scikit-learn's own validation (ConstraintKMeans refuses one)
 
 
+SHARING_SAFE = ("DecisionTreeLogisticRegression", "PiecewiseRegressor", "PiecewiseClassifier", "IntervalRegressor", "ClassifierAfterKMeans")
+
+
 def _fit(entry, est, data, seed, as_frame=False, wfilter=None):
     if wfilter:
         # the caller's warning filters are not an input of the model: the fit runs with warnings shown ("always" / "default") while the
@@ -140,6 +143,14 @@ def check_refit(case):
             _fp(entry, other, case["datasets"][j], *R.materialize(case["datasets"][j])[:2], seed + 1)
         except Exception:  # noqa: BLE001 - the other data set may not suit this configuration: only the effect on `inst` matters
             pass
+        if name in SHARING_SAFE:
+            # ... and a sibling built around the SAME parameter objects (one base estimator instance handed to two wrappers, as in a
+            # loop over data sets): these classes document that they work on clones of what they are given
+            try:
+                sib = type(inst)(**inst.get_params(deep=False))
+                _fit(entry, sib, case["datasets"][j], seed + 2)
+            except Exception:  # noqa: BLE001
+                pass
         again = _fp(entry, inst, data, X, y, seed)
         d3 = R.same_fingerprint(got, again, exact=entry.exact)
         require(d3 is None, "instance-disturbed-by-another-instance", "after ANOTHER instance of the class was fitted on other data, this fitted instance answers differently: %s" % d3, f2)
